@@ -17,6 +17,9 @@ def run(prog, chk, tier):
     chk.explanation = ("Bf3File.read_file is interpreted symbolically with both halves of the parser inlined; the reads on each BytesReader give a "
                        "consumption grammar that must equal the documented layout table (spec/layout.json); on the bound fields, each acceptance rule of the "
                        "statement must exist as a guard with the right relational normal form, raise on violation, and structurally dominate acceptance.")
+    from rules import state as _state
+
+    _state.library_state_rules(prog, chk, "C05")
     if bf3.rule_reader_layout(m, chk, "C05"):
         bf3.reader_rules(m, chk, "C05")
         # "the returned content is what those fields say": a component is decrypted exactly when its ENC tag holds the writer's encoding of SESSIONKEY
